@@ -84,9 +84,10 @@ func c19Case(c *hx.Ctx, r *hx.RNG, idx int64) {
 				k.u.Exp = k.x.LeadExp() + k.y.LeadExp() + int64(r.Range(-40, 40)) - oracle.Digits(k.u.Coef)
 			}
 			k.attrs(r)
-			X := hx.Mk(k.x, digitsOf(k.x)+k.xp, k.xm)
-			Y := hx.Mk(k.y, digitsOf(k.y)+k.yp, k.ym)
-			U := hx.Mk(k.u, digitsOf(k.u)+k.up, k.um)
+			k.p = m.prec // (attrs may pick a precision of its own for the receiver: here the context decides)
+			X := hx.Mk(k.x, opPrec(k.x, k.xp), k.xm)
+			Y := hx.Mk(k.y, opPrec(k.y, k.yp), k.ym)
+			U := hx.Mk(k.u, opPrec(k.u, k.up), k.um)
 			// the receiver has attributes of its own, different from the context's, and old contents
 			z := newRecv(int64(r.Range(0, 80)), r.Mode())
 			if r.Bool() {
